@@ -59,7 +59,7 @@ def check_local(ctx, facts, b):
             continue
         for bb, t, m in deque_calls(facts, body):
             n += 1
-            ctx.ob("WHO-queue", f"{m}@{body.root}", m in ALLOWED, f"VecDeque::{m}" + ("" if m in ALLOWED else " breaks FIFO order of the active window (results would be emitted out of input order)"), site_of(body, bb))
+            ctx.ob("WHO-queue", f"{m}@{body.root}", m in ALLOWED, f"VecDeque::{m}" + ("" if m in ALLOWED else " is outside the queue discipline of the active window (push_back / pop_front / front_mut / iter_mut): results could be emitted out of input order, or - for partial views such as as_mut_slices().0 - part of the window would never be polled"), site_of(body, bb))
     ctx.floor("WHO-queue", "deque method calls", n, 6)
     dc = deque_calls(facts, b)
     dom = b.dominators()
